@@ -147,6 +147,7 @@ package funnel
 
 //verif:func (*Worker).Ack(w, ctx, batch) (err)
 //verif:requires BLens(batch)
+//verif:assume w.DLQ != nil && w.DLQ.window != nil && winInv(w.DLQ.window) because "the DLQ of a worker is built by NewDLQ/newDLQWindow (winInv proved) and its window is only touched by DLQ.Ack/DLQ.Nack under d.m, each proved to preserve winInv"
 //verif:call[ack-original-positions] Source.Ack requires succeeded("validateAckPositions") && arg1 == result_of("(*Batch).originalBatch", 0).positions && forall k in [0, len(arg1)): len(arg1[k]) != 0
 //verif:ensures[single-ack] count("Source.Ack") <= 1
 
@@ -158,6 +159,14 @@ package funnel
 //verif:ensures[dlq-error-propagates] result_of("(*DLQ).Nack", 1) != nil ==> err != nil
 
 // ---- DLQ (C01, C07, C10) -------------------------------------------------------
+
+// DLQ.Ack feeds the window one ack per record, under d.m, and keeps it well formed
+// (the other half of the argument behind the winInv assumption of Worker.Ack/Nack).
+//verif:func (*DLQ).Ack(d, ctx, batch)
+//verif:requires d.window != nil && winInv(d.window)
+//verif:ensures[inv] winInv(d.window)
+//verif:call[window-under-lock] (*dlqWindow).Ack requires called("(*Mutex).Lock") && !called("(*Mutex).Unlock") && arg1 == len(batch.records)
+//verif:ensures[lock-released] called("(*Mutex).Lock") ==> called("(*Mutex).Unlock")
 
 //verif:func (*DLQ).Nack(d, ctx, batch, taskID) (n, err)
 //verif:requires BLens(batch) && d.window != nil && winInv(d.window)
